@@ -50,4 +50,11 @@ LEVELS["C17"] = {
     "note": BASE_NOTE + " Commands are driven at Run(ctx) level with a harness app.Context (kong/argument parsing is outside).",
 }
 
+LEVELS["C07"] = {
+    "text": "Bounded symbolic model checking of the parallel engine against the serial one: all bytes of the text are symbolic (chunk boundaries inside lines, CRLF and "
+            "multi-byte sequences are reached through the solver-decided UTF-8 classes), every worker count within the bound and every delivery order of the batch results "
+            "(engine scheduler: all w! orders) are explored; values, blocks, line numbering and errors must be equal.",
+    "note": BASE_NOTE + " Concurrency is modelled at delivery granularity only (coroutine scheduler); data races between statements are outside.",
+}
+
 NOT_APPLICABLE = {}
